@@ -458,8 +458,14 @@ class Inliner:
                                     return [ast.copy_location(ast.AugAssign(target=copy.deepcopy(st.target), op=st.op, value=v), st)]
                                 new = prologue + self._convert(body, make_exit)
                             self.expanded[q] = self.expanded.get(q, 0) + 1
+                            # the expanded code stands at the call site: positions in the host stay monotone (rules compare line numbers)
                             for s_ in new:
-                                ast.fix_missing_locations(s_)
+                                for n_ in ast.walk(s_):
+                                    if hasattr(n_, "lineno") or isinstance(n_, (ast.stmt, ast.expr)):
+                                        n_.lineno = getattr(st, "lineno", 1)
+                                        n_.end_lineno = getattr(st, "end_lineno", n_.lineno)
+                                        n_.col_offset = getattr(n_, "col_offset", 0) or 0
+                                        n_.end_col_offset = getattr(n_, "end_col_offset", 0) or 0
                             # the expanded body may call further new helpers
                             names2 = self._host_names_from(host_names, new)
                             return self.expand_block(new, host_cls, names2, stack | {q})
